@@ -927,6 +927,8 @@ _SCRIPTS = [
     [[3, 0, 0, 2], [0, 0], [0, 2], [7], [3, 0, 0, 3], [9, 0]],
     # orphan outside of the session, then add
     [[3, 0, 0, 2], [4, 0, 0, 2], [0, 2], [7], [0, 0], [7]],
+    # remove a persistent child and delete its parent in ONE flush (presort_deletes sees it in history.deleted)
+    [[3, 0, 0, 2], [3, 0, 0, 3], [0, 0], [0, 2], [0, 3], [7], [4, 0, 0, 2], [1, 0], [7]],
 ]
 
 
@@ -960,10 +962,16 @@ def gen_cases(rng, tier):
     maxops = 16 if tier == "thorough" else 12
     for _ in range(nrand):
         cases.append({"in": _pack_case(_guided(rng, maxops)), "kind": "guided"})
-    return cases
+    return cases + _m2o_cases(rng, tier)
+
+
+def _is_m2o(c):
+    return bool(c["in"]) and c["in"][0] == -1
 
 
 def nontrivial(c):
+    if _is_m2o(c):
+        return any(o[0] == 3 for o in c["in"][4]) and any(o[0] == 4 for o in c["in"][4])
     cfg, objcls, ops = _unpack_case(c["in"])
     if not any(o[0] == 7 for o in ops):
         return False
@@ -1050,6 +1058,8 @@ def impl(c):
     from sqlalchemy import inspect, text
     from sqlalchemy.orm import Session
 
+    if _is_m2o(c):
+        return _impl_m2o(c)
     cfg, objcls, ops = _unpack_case(c["in"])
     eng, classes = _build(cfg)
     ncls, rels, legacy = cfg
@@ -1216,6 +1226,8 @@ _IN = (1, 2)  # pending, persistent
 
 
 def oracle(c, obs):
+    if _is_m2o(c):
+        return _oracle_m2o(c, obs)
     if _trace.get("case") != list(c["in"]):
         return None
     cfg, objcls, ops = _unpack_case(c["in"])
@@ -1288,8 +1300,8 @@ def oracle(c, obs):
                     now = [q for (q, rj), cs in before["coll"].items() if rj == ri and ch in cs]
                     if was is None or now:
                         continue
-                    if before["st"][was] not in _IN or was in before["mk"]:
-                        continue  # the parent it was removed from is not flushed as a save
+                    if before["st"][was] not in _IN:
+                        continue  # the parent it was removed from takes no part in the flush
                     other = [
                         rj for rj, r in enumerate(rels)
                         if r[1] == rc and r[2] & DO and rj != ri and any(ch in cs for (q, rk), cs in before["coll"].items() if rk == rj)
@@ -1338,6 +1350,217 @@ def match_finding(c, what):
         return "C39-delete-cancelled-by-pending-parent"
     if what.startswith("F4:"):
         return "C39-reparented-outside-session-dangling-row"
+    return None
+
+
+# ---------------------------------------------------------------------------------------------
+# oracle-only family "m2o": a scalar (many-to-one, single_parent) delete-orphan relationship whose target has
+# its own collection, i.e. graphs two levels deep  Order.addr -> Address.lines -> Line.  The Gallina model does
+# not describe this side (many-to-one delete-orphan); these cases are judged by the property statement alone.
+#   in = [-1, addr cascade mask, lines cascade mask, lines backref 0/1, [op...]]   ("model": False)
+#   objects: 0,1 = Order, 2,3 = Address, 4,5,6 = Line
+#   op = [0,x] add | [1,x] delete | [2,x] expunge | [3,o,a|9] o.addr = a / None | [4,a,l] a.lines.append(l)
+#      | [5,a,l] a.lines.remove(l) | [7] flush
+# ---------------------------------------------------------------------------------------------
+_m2o_cache = {}
+_M2O_CLS = [0, 0, 1, 1, 2, 2, 2]
+
+
+def _m2o_build(cm, lm, hb):
+    import warnings
+
+    key = (cm, lm, hb)
+    if key in _m2o_cache:
+        return _m2o_cache[key]
+    from sqlalchemy import Column, ForeignKey, Integer, create_engine
+    from sqlalchemy.orm import configure_mappers, declarative_base, relationship
+    from sqlalchemy.pool import StaticPool
+
+    Base = declarative_base()
+    with warnings.catch_warnings():
+        warnings.simplefilter("ignore")
+        O = type(
+            "O",
+            (Base,),
+            {
+                "__tablename__": "o",
+                "id": Column(Integer, primary_key=True),
+                "aid": Column(ForeignKey("a.id")),
+                "addr": relationship("A", cascade=_casc_str(cm), single_parent=True),
+            },
+        )
+        A = type(
+            "A",
+            (Base,),
+            {
+                "__tablename__": "a",
+                "id": Column(Integer, primary_key=True),
+                "lines": relationship("L", cascade=_casc_str(lm), back_populates="addr" if hb else None, order_by="L.id"),
+            },
+        )
+        nsL = {"__tablename__": "l", "id": Column(Integer, primary_key=True), "aid": Column(ForeignKey("a.id"))}
+        if hb:
+            nsL["addr"] = relationship("A", back_populates="lines")
+        L = type("L", (Base,), nsL)
+        configure_mappers()
+    eng = create_engine("sqlite://", connect_args={"autocommit": False}, poolclass=StaticPool)
+    Base.metadata.create_all(eng)
+    _m2o_cache[key] = (eng, [O, A, L])
+    return _m2o_cache[key]
+
+
+def _m2o_cases(rng, tier):
+    cases = []
+    scripts = [
+        # the old pending value (with lines) is replaced / cleared before any flush
+        [[4, 2, 4], [4, 2, 5], [0, 0], [3, 0, 2], [3, 0, 3], [7]],
+        [[4, 2, 4], [4, 2, 5], [0, 0], [7], [3, 0, 2], [3, 0, 9], [7]],
+        [[4, 2, 4], [4, 3, 5], [0, 0], [3, 0, 2], [7], [3, 0, 3], [7]],
+        [[4, 2, 4], [0, 0], [3, 0, 2], [4, 2, 5], [3, 0, 9], [4, 3, 6], [3, 0, 3], [7]],
+        [[4, 2, 4], [0, 0], [3, 0, 2], [7], [1, 0], [7]],
+        [[4, 2, 4], [4, 2, 5], [0, 0], [3, 0, 2], [2, 2], [7]],
+    ]
+    cms = [63, SU | DL | DO, SU | EX | DL | DO, 47, SU]
+    lms = [63, 47, SU | EX, SU, SU | DL | DO]
+    for cm in cms:
+        for lm in lms:
+            for hb in (0, 1):
+                for sc in scripts:
+                    cases.append({"in": [-1, cm, lm, hb, [list(o) for o in sc]], "kind": "m2o", "model": False})
+    for _ in range(2000 if tier == "thorough" else 250):
+        ops = []
+        for _k in range(rng.randint(3, 10)):
+            code = rng.choice([0, 0, 1, 2, 3, 3, 3, 4, 4, 5, 7])
+            if code in (0, 1, 2):
+                ops.append([code, rng.randrange(7)])
+            elif code == 3:
+                ops.append([3, rng.choice([0, 1]), rng.choice([2, 3, 9])])
+            elif code in (4, 5):
+                ops.append([code, rng.choice([2, 3]), rng.choice([4, 5, 6])])
+            else:
+                ops.append([7])
+        cases.append({"in": [-1, rng.choice(cms), rng.choice(lms), rng.randrange(2), ops], "kind": "m2o", "model": False})
+    return cases
+
+
+def _impl_m2o(c):
+    import warnings
+    from sqlalchemy import exc as sa_exc
+    from sqlalchemy import inspect, text
+    from sqlalchemy.orm import Session
+
+    _, cm, lm, hb, ops = c["in"]
+    eng, classes = _m2o_build(cm, lm, hb)
+    out = []
+    trace = []
+    with warnings.catch_warnings():
+        warnings.simplefilter("ignore")
+        s = Session(eng, autoflush=False, expire_on_commit=False)
+        try:
+            objs = [classes[k](id=i + 1) for i, k in enumerate(_M2O_CLS)]
+            for o in objs[2:4]:
+                o.lines = []
+            for o in objs[:2]:
+                o.addr = None
+            index = {id(o): i for i, o in enumerate(objs)}
+
+            def snap():
+                edges = {}
+                for i, o in enumerate(objs):
+                    d = inspect(o).dict
+                    if i < 2 and d.get("addr") is not None:
+                        edges[(i, "addr")] = [index[id(d["addr"])]]
+                    if 2 <= i < 4 and "lines" in d:
+                        edges[(i, "lines")] = [index[id(x)] for x in d["lines"]]
+                    if i >= 4 and hb and d.get("addr") is not None:
+                        edges[(i, "back")] = [index[id(d["addr"])]]
+                return {"st": [_status(o) for o in objs], "edges": edges}
+
+            dead = False
+            trace.append((None, snap(), 0))
+            for op in ops:
+                if dead:
+                    out.append(-9)
+                    continue
+                code, err = op[0], 0
+                try:
+                    if code == 0:
+                        s.add(objs[op[1]])
+                    elif code == 1:
+                        s.delete(objs[op[1]])
+                    elif code == 2:
+                        s.expunge(objs[op[1]])
+                    elif code == 3:
+                        objs[op[1]].addr = None if op[2] == 9 else objs[op[2]]
+                    elif code == 4:
+                        if objs[op[2]] not in objs[op[1]].lines:
+                            objs[op[1]].lines.append(objs[op[2]])
+                    elif code == 5:
+                        if objs[op[2]] in objs[op[1]].lines:
+                            objs[op[1]].lines.remove(objs[op[2]])
+                    else:
+                        s.flush()
+                except (sa_exc.InvalidRequestError, sa_exc.IntegrityError, sa_exc.SAWarning) as ex:
+                    err = 1
+                    if code == 7:
+                        dead = True
+                        out.append(-1)
+                        trace.append((op, None, 1))
+                        continue
+                except Exception as ex:
+                    if type(ex).__name__ not in ("FlushError", "ObjectDeletedError", "StaleDataError"):
+                        raise
+                    dead = True
+                    out.append(-2)
+                    trace.append((op, None, 2))
+                    continue
+                sn = snap()
+                trace.append((op, sn, err))
+                out.append(err + 4 * _pack(8, sn["st"]))
+        finally:
+            try:
+                s.rollback()
+            except Exception:
+                pass
+            s.close()
+            with eng.begin() as conn:
+                for t in ("l", "o", "a"):
+                    conn.execute(text("delete from %s" % t))
+    _trace.clear()
+    _trace["case"] = list(c["in"])
+    _trace["steps"] = trace
+    return out
+
+
+def _oracle_m2o(c, obs):
+    """expunge cascades reach exactly the configured objects - also when the session expunges a pending orphan by
+    itself (attribute events): whatever leaves the session takes its expunge-cascade closure with it"""
+    if _trace.get("case") != list(c["in"]):
+        return None
+    _, cm, lm, hb, ops = c["in"]
+    steps = _trace["steps"]
+    mask = {"addr": cm, "lines": lm, "back": SU | MG}
+    for k in range(1, len(steps)):
+        op, after, err = steps[k]
+        before = steps[k - 1][1]
+        if after is None or before is None:
+            break
+        if op[0] == 7 or err:
+            continue  # the flush drops orphans that were orphaned outside of the session without cascading
+        left = [i for i in range(7) if before["st"][i] == 1 and after["st"][i] == 0]
+        for x in left:
+            seen, todo = set(), [x]
+            while todo:
+                n_ = todo.pop()
+                for (src, key), tgts in before["edges"].items():
+                    if src == n_ and mask[key] & EX:
+                        for y in tgts:
+                            if y not in seen:
+                                seen.add(y)
+                                todo.append(y)
+            stay = sorted(y for y in seen if after["st"][y] in _IN)
+            if stay:
+                return "object %d left the session (pending orphan / expunge) but %s, reachable from it through expunge cascades, stayed" % (x, stay)
     return None
 
 
